@@ -1020,7 +1020,7 @@ EndWithoutServer(S, n) ==
         Scan(j, bd, inds) ==
             IF j > Len(ids) THEN <<inds, bd>>
             ELSE LET c == Cu(S, ids[j])
-                     se == IF c.se = NONE THEN (IF Dev(S, "F14") THEN 0 ELSE -1) ELSE c.se
+                     se == IF c.se = NONE THEN -1 ELSE c.se      \* a customer that has not started is never a candidate (finding F14, fixed)
                  IN IF ~c.blk /\ se >= S.now
                     THEN IF se < bd THEN Scan(j + 1, se, <<c.id>>)
                          ELSE IF se = bd /\ bd < INF THEN Scan(j + 1, bd, Append(inds, c.id))
